@@ -938,10 +938,11 @@ Proof.
     simp_chain; apply bget_badd_other; unfold POOL, HOUSEFEE, BETFEE, FEECOLL; lia.
 Qed.
 
-(* who may sign: module accounts have no keys, so the account arguments of an operation are user accounts *)
+(* who may sign: module accounts have no keys, so the account arguments of an operation are user accounts; and what can be
+   written down: a market's outcome list is a Go slice, its length fits the uint64 counter the book stores *)
 Definition valid_op (o : op) : Prop :=
   match o with
-  | OMarketAdd sg _ _ _ _ _ _ => 0 <= sg
+  | OMarketAdd sg _ _ _ _ odds _ => 0 <= sg /\ zlen odds < U64
   | ODeposit sg _ _ _ _ _ => 0 <= sg
   | OWithdraw sg _ _ _ _ _ _ _ => 0 <= sg
   | OWager sg _ _ _ _ _ _ _ _ _ _ => 0 <= sg
@@ -960,7 +961,7 @@ Proof.
   destruct o; cbn [valid_op] in Hv; try (apply tx_inv; [exact Hinv|intros s' H]).
   - apply begin_block_inv. exact Hinv.
   - apply end_block_inv. exact Hinv.
-  - eapply market_add_inv; eassumption.
+  - destruct Hv as [Hv _]. eapply market_add_inv; eassumption.
   - eapply market_update_inv; eassumption.
   - eapply market_resolve_inv; eassumption.
   - eapply house_deposit_inv; eassumption.
@@ -1010,7 +1011,7 @@ Qed.
 (* a decidable version of the signer condition, for concrete histories *)
 Definition valid_opb (o : op) : bool :=
   match o with
-  | OMarketAdd sg _ _ _ _ _ _ => 0 <=? sg
+  | OMarketAdd sg _ _ _ _ odds _ => (0 <=? sg) && (zlen odds <? U64)
   | ODeposit sg _ _ _ _ _ => 0 <=? sg
   | OWithdraw sg _ _ _ _ _ _ _ => 0 <=? sg
   | OWager sg _ _ _ _ _ _ _ _ _ _ => 0 <=? sg
@@ -1022,7 +1023,8 @@ Definition valid_opb (o : op) : bool :=
 Lemma valid_opb_ok o : valid_opb o = true -> valid_op o.
 Proof.
   destruct o; cbn; intros H; try exact I; try (apply Z.leb_le; exact H).
-  apply andb_true_iff in H. destruct H as [H1 H2]. split; apply Z.leb_le; assumption.
+  - apply andb_true_iff in H. destruct H as [H1 H2]. split; [apply Z.leb_le|apply Z.ltb_lt]; assumption.
+  - apply andb_true_iff in H. destruct H as [H1 H2]. split; apply Z.leb_le; assumption.
 Qed.
 Lemma valid_ops_ok ops : forallb valid_opb ops = true -> Forall valid_op ops.
 Proof. intros H. apply Forall_forall. intros o Ho. apply valid_opb_ok. rewrite forallb_forall in H. apply H. exact Ho. Qed.
